@@ -1,5 +1,6 @@
 import CwPlus.Props.C07
 import CwPlus.Props.C17
+import CwPlus.Props.C08
 /-!
 # C16 — cw1: CanExecute predicts Execute
 
@@ -142,6 +143,138 @@ theorem Sk.canExecute_iff_reachable {V : String → Prop} {s : Cw1Subkeys.State}
       simp [coveredSeq, coveredFrom, h1, h2, covers_no_grants] at hc
   · exact Sk.canExecute_iff_execute_ok s blk snd m hv
 
+/-! ## Histories, the `false` answer, lists -/
+
+/-- C16 (subkeys), closed form over histories: after **every** history from instantiation whose validated address
+arguments are well-formed addresses (`V`: the oracle behind `addr_validate`), for every block, message and sender
+string that is either valid or not a well-formed address, `CanExecute` answers `true` exactly when `Execute{[msg]}`
+by that sender succeeds.  (`canExecute_iff_reachable` composed with `C17.Sk.grant_keys_valid`.) -/
+theorem Sk.canExecute_iff_run (V : String → Prop) {m0 : Cw1Subkeys.InstMsg} {s0 : Cw1Subkeys.State}
+    (h0 : Cw1Subkeys.instantiate m0 = .ok s0) (ops : List (Block × Addr × Cw1Subkeys.Msg))
+    (hops : ∀ op ∈ ops, C17.argsOk V op.2.2) (blk : Block) (snd : AddrArg) (m : CosmosMsg)
+    (hsnd : snd.valid = false → ¬ V snd.text) :
+    Cw1Subkeys.queryCanExecute (C17.Sk.run s0 ops) blk snd m = .ok true ↔
+      (Cw1Subkeys.execute (C17.Sk.run s0 ops) blk snd.text (.execute [m])).isOk = true :=
+  Sk.canExecute_iff_reachable (C17.Sk.grant_keys_valid V h0 ops hops) blk snd m hsnd
+
+/-- C16 (subkeys), the `false` answer: for a valid sender the query answers `false` exactly when `Execute{[msg]}`
+fails.  This is the form the monitor `C16/query-vs-execute` tests. -/
+theorem Sk.canExecute_false_iff (s : Cw1Subkeys.State) (blk : Block) (snd : AddrArg) (m : CosmosMsg)
+    (hv : snd.valid = true) :
+    Cw1Subkeys.queryCanExecute s blk snd m = .ok false ↔
+      ∃ e, Cw1Subkeys.execute s blk snd.text (.execute [m]) = .error e := by
+  have hiff := Sk.canExecute_iff_execute_ok s blk snd m hv
+  obtain ⟨b, hb⟩ := Sk.canExecute_total s blk snd m hv
+  rw [← NativeBalance.isOk_false_iff_exists]
+  cases b with
+  | true =>
+    have := hiff.mp hb
+    rw [hb, this]; simp
+  | false =>
+    rw [hb] at hiff ⊢
+    cases hr : (Cw1Subkeys.execute s blk snd.text (.execute [m])).isOk with
+    | false => simp
+    | true => have := hiff.mpr hr; cases this
+
+/-- C16 (whitelist), the `false` answer. -/
+theorem Wl.canExecute_false_iff (s : Cw1Whitelist.State) (blk : Block) (snd : AddrArg) (m : CosmosMsg) :
+    Cw1Whitelist.queryCanExecute s blk snd m = .ok false ↔
+      ∃ e, Cw1Whitelist.execute s blk snd.text (.execute [m]) = .error e := by
+  have hiff := Wl.canExecute_iff_execute_ok s blk snd m
+  rw [← NativeBalance.isOk_false_iff_exists]
+  cases hr : (Cw1Whitelist.execute s blk snd.text (.execute [m])).isOk with
+  | true => rw [hiff.mpr hr]; simp
+  | false =>
+    constructor
+    · intro _; rfl
+    · intro _
+      cases hq : s.isAdmin snd.text with
+      | false => simp [Cw1Whitelist.queryCanExecute, hq]
+      | true =>
+        have : Cw1Whitelist.queryCanExecute s blk snd m = .ok true := by simp [Cw1Whitelist.queryCanExecute, hq]
+        rw [hiff.mp this] at hr; cases hr
+
+/-- C16 (whitelist): the answer depends neither on the message nor on the block. -/
+theorem Wl.canExecute_ignores_msg_and_block (s : Cw1Whitelist.State) (blk blk' : Block) (snd : AddrArg) (m m' : CosmosMsg) :
+    Cw1Whitelist.queryCanExecute s blk snd m = Cw1Whitelist.queryCanExecute s blk' snd m' := rfl
+
+/-- The threaded allowance of the coverage loop stays below the stored one: same expiry, every coin at most what
+the stored balance shows for its denom. -/
+def AlBelow (al' al0 : Option Allowance) : Prop :=
+  match al', al0 with
+  | none, none => True
+  | some a', some a0 => a'.expires = a0.expires ∧ NativeBalance.Below a'.balance a0.balance ∧
+      NativeBalance.UniqueDenoms a'.balance ∧ NativeBalance.UniqueDenoms a0.balance
+  | _, _ => False
+
+theorem coveredFrom_each {perm : Option Permissions} {blk : Block} {al' al0 : Option Allowance} {msgs : List CosmosMsg}
+    (hb : AlBelow al' al0) (h : coveredFrom perm blk al' msgs = true) :
+    ∀ m ∈ msgs, (covers perm blk al0 m).isSome = true := by
+  induction msgs generalizing al' with
+  | nil => intro m hm; cases hm
+  | cons m ms ih =>
+    simp only [coveredFrom] at h
+    split at h
+    · rename_i al'' hc
+      have hstep : (covers perm blk al0 m).isSome = true ∧ AlBelow al'' al0 := by
+        cases hbk : C07.isBankSend m with
+        | false =>
+          rw [C07.covers_of_not_bank perm blk al' hbk] at hc
+          rw [C07.covers_of_not_bank perm blk al0 hbk]
+          split at hc
+          · rename_i hp; cases hc; simp [hp]; exact hb
+          · cases hc
+        | true =>
+          cases m with
+          | bankSend to cs =>
+            cases al' with
+            | none => simp [covers] at hc
+            | some a' =>
+              cases al0 with
+              | none => exact absurd hb (by simp [AlBelow])
+              | some a0 =>
+                obtain ⟨hexp, hbel, hu', hu0⟩ := hb
+                simp only [covers] at hc ⊢
+                cases hx : a'.expires.isExpired blk with
+                | true => simp [hx] at hc
+                | false =>
+                  cases hs : a'.balance.subCoins cs with
+                  | error e => simp [hx, hs] at hc
+                  | ok b =>
+                    simp [hx, hs] at hc
+                    subst hc
+                    have hok : (a0.balance.subCoins cs).isOk = true :=
+                      NativeBalance.subCoins_mono hu' hu0 hbel (by rw [hs]; rfl)
+                    obtain ⟨b0, hb0⟩ := (NativeBalance.isOk_iff_exists _).mp hok
+                    refine ⟨by simp [← hexp, hx, hb0], hexp, ?_, NativeBalance.unique_subCoins hu' hs, hu0⟩
+                    exact (NativeBalance.subCoins_below hu' hs).trans hbel
+          | _ => simp [C07.isBankSend] at hbk
+      intro x hx
+      rcases List.mem_cons.mp hx with rfl | hx
+      · exact hstep.1
+      · exact ih hstep.2 h x hx
+    · cases h
+
+/-- C16 (subkeys), lists: on a well-formed state (`C08.wf_run`: every reachable one), if a valid sender's
+`Execute{msgs}` succeeds then `CanExecute` answers `true` for every single message of the list.  The converse fails
+(each message may be affordable alone but not together, see the example below), and so does the statement without
+well-formedness (with the balance `[(a,1),(a,5)]` the list `a1, a5` succeeds but `a5` alone does not). -/
+theorem Sk.execute_list_each {s : Cw1Subkeys.State} (hw : C08.WF s) (blk : Block) (snd : AddrArg) (msgs : List CosmosMsg)
+    (hv : snd.valid = true) (h : (Cw1Subkeys.execute s blk snd.text (.execute msgs)).isOk = true) :
+    ∀ m ∈ msgs, Cw1Subkeys.queryCanExecute s blk snd m = .ok true := by
+  intro m hm
+  cases ha : s.cfg.isAdmin snd.text with
+  | true => simp [Cw1Subkeys.queryCanExecute, ha]
+  | false =>
+    rw [Sk.query_nonadmin s blk snd m ha hv]
+    rcases (C07.Sk.execute_ok_iff s blk snd.text msgs).mp h with h1 | h1
+    · rw [ha] at h1; cases h1
+    · have hbel : AlBelow (s.allowances.get? snd.text) (s.allowances.get? snd.text) := by
+        cases hg : s.allowances.get? snd.text with
+        | none => trivial
+        | some a => exact ⟨rfl, NativeBalance.Below.refl _, hw _ a hg, hw _ a hg⟩
+      rw [coveredFrom_each hbel h1 m hm]
+
 /-! ## non-vacuity -/
 
 open CwPlus.Props.C07 (exState blk50 blk100)
@@ -160,5 +293,22 @@ example : (Cw1Subkeys.queryCanExecute exState blk50 ⟨true, "sub"⟩ (.distribu
 example : (Cw1Subkeys.queryCanExecute exState blk50 ⟨true, "sub"⟩ (.distribution .other "v")).toOption = some false := by decide
 example : (Cw1Subkeys.queryCanExecute exState blk50 ⟨false, "NotAnAddress"⟩ (.wasm "w")).isOk = false := by decide
 example : (Cw1Subkeys.queryCanExecute exState blk50 ⟨true, "admin"⟩ (.wasm "w")).toOption = some true := by decide
+
+/-- `canExecute_false_iff` on the running example -/
+example : ∃ e, Cw1Subkeys.execute exState blk50 "sub" (.execute [.bankSend "x" [("ua", 11)]]) = .error e :=
+  (Sk.canExecute_false_iff exState blk50 ⟨true, "sub"⟩ _ rfl).mp rfl
+/-- `execute_list_each`: the list succeeds, so each message can execute; the converse fails: 6 ua twice is each
+affordable alone, but not together -/
+example : ∀ m ∈ [CosmosMsg.bankSend "x" [("ua", 4)], .staking .delegate "v", .bankSend "y" [("ua", 6), ("ub", 1)]],
+    Cw1Subkeys.queryCanExecute exState blk50 ⟨true, "sub"⟩ m = .ok true :=
+  Sk.execute_list_each C08.exState_wf blk50 ⟨true, "sub"⟩ _ rfl (by decide)
+example : (∀ m ∈ [CosmosMsg.bankSend "x" [("ua", 6)], .bankSend "y" [("ua", 6)]],
+      (Cw1Subkeys.queryCanExecute exState blk50 ⟨true, "sub"⟩ m).toOption = some true) ∧
+    (Cw1Subkeys.execute exState blk50 "sub" (.execute [.bankSend "x" [("ua", 6)], .bankSend "y" [("ua", 6)]])).isOk = false := by
+  decide
+/-- without unique denoms the list statement fails -/
+example : let s : Cw1Subkeys.State := { exState with allowances := [("sub", ⟨[("a", 1), ("a", 5)], .never⟩)] }
+    (Cw1Subkeys.execute s blk50 "sub" (.execute [.bankSend "x" [("a", 1)], .bankSend "y" [("a", 5)]])).isOk = true ∧
+    (Cw1Subkeys.queryCanExecute s blk50 ⟨true, "sub"⟩ (.bankSend "y" [("a", 5)])).toOption = some false := by decide
 
 end CwPlus.Props.C16
